@@ -314,7 +314,7 @@ func TestVerif_C03_h2cut(t *testing.T) {
 	reached := map[string]int{}
 	failures := 0
 	tmpDir := t.TempDir()
-	rstSeq, goSeq, overSeq, preRst, preGo := 0, 0, 0, 0, 0
+	rstSeq, goSeq, overSeq, preRst, preGo, zstdSeq := 0, 0, 0, 0, 0, 0
 	perName := map[string]int{}
 	for i := 0; i < n && failures < 12; i++ {
 		plain := verifh.RandBytes(r, 1+r.Intn(300), "abcdefghijklmnopqrstuvwxyz")
@@ -324,6 +324,14 @@ func TestVerif_C03_h2cut(t *testing.T) {
 		var ze *c03EncBody
 		if kind >= 20 || r.Intn(5) < 2 {
 			ze = c03PickEnc(r, plain, kind >= 20)
+		}
+		if kind == 20 {
+			// every third "fault before the first byte" case is zstd cut within the first four bytes of its frame
+			// (offset 0 included) by an ending the framing layer reports as io.ErrUnexpectedEOF: must be an ERROR
+			if zstdSeq%3 == 0 {
+				ze = c03MakeEnc(r, plain, "zstd", "auto", 1)
+			}
+			zstdSeq++
 		}
 		body := plain
 		if ze != nil {
@@ -431,7 +439,12 @@ func TestVerif_C03_h2cut(t *testing.T) {
 			ze = nil // (the bytes are then just a binary body)
 		case 20: // encoded body, the fault hits BEFORE its first byte: reset (any code) / GOAWAY / TCP close / END_STREAM with a declared length
 			sc.send, sc.complete = 0, false
-			switch r.Intn(4) {
+			sub := r.Intn(4)
+			if ze.enc == "zstd" {
+				sc.send, sub = r.Intn(4), 2+r.Intn(2)
+				reached["zstd-frame-start-cut"]++
+			}
+			switch sub {
 			case 0:
 				sc.ending, sc.code = "rst", allCodes[r.Intn(len(allCodes))]
 			case 1:
@@ -439,7 +452,7 @@ func TestVerif_C03_h2cut(t *testing.T) {
 			case 2:
 				sc.ending = "close"
 			case 3:
-				sc.declared, sc.trailers = len(body), r.Intn(2) == 0
+				sc.declared, sc.trailers = len(body), r.Intn(2) == 0 || ze.enc == "zstd"
 			}
 			sc.name = "enc-fault-before-first-byte"
 		case 21: // END_STREAM exactly between two gzip members, short of the declared length
@@ -634,7 +647,7 @@ func TestVerif_C03_h2cut(t *testing.T) {
 	for _, need := range []string{"ok", "fail", "complete", "complete-head-with-length", "rst-code-0", "rst-code-8", "goaway-code-0-last-at", "goaway-code-0-last-below", "goaway-graceful-complete", "rst-noerror-after-end-stream", "tcp-close", "midframe", "short-end-stream", "overlong", "overlong-late-frame", "overlong-at-read-buffer", "overlong-zero-length", "close-before-headers",
 		"rst-before-headers-code-7", "rst-before-headers-code-1", "rst-before-headers-code-0", "goaway-before-headers-code-0-last-below", "goaway-before-headers-code-2-last-below", "complete-with-trailers", "short-with-trailers", "data-after-end-stream", "headers-end-stream-with-length", "caller-closes-early",
 		"enc-fault-before-first-byte", "enc-short-at-member-boundary", "enc-overlong-member", "enc:gzip-transparent", "enc:gzip-auto", "enc:deflate-auto", "enc:br-auto", "enc:zstd-auto",
-		"enc-fault:gzip", "enc-fault:deflate", "enc-fault:br", "enc-fault:zstd"} {
+		"enc-fault:gzip", "enc-fault:deflate", "enc-fault:br", "enc-fault:zstd", "zstd-frame-start-cut"} {
 		if reached[need] == 0 {
 			t.Errorf("C03/h2cut never reached %q", need)
 		}
